@@ -866,6 +866,9 @@ func (client *client) internalClose() {
 	putBufioReader(client.bufr)
 	putBufioWriter(client.bufw)
 	close(client.closed)
+	client.server.connsMu.Lock()
+	delete(client.server.conns, client)
+	client.server.connsMu.Unlock()
 
 }
 
